@@ -517,7 +517,6 @@ func (tx *Tx) buildListIdx(bucket string, entry *Entry) {
 func (tx *Tx) rotateActiveFile() error {
 	var err error
 	fID := tx.db.MaxFileID
-	tx.db.MaxFileID++
 
 	if !tx.db.opt.SyncEnable && tx.db.opt.RWMode == MMap {
 		if err := tx.db.ActiveFile.rwManager.Sync(); err != nil {
@@ -571,13 +570,17 @@ func (tx *Tx) rotateActiveFile() error {
 		tx.db.ActiveCommittedTxIdsIdx = NewTree()
 	}
 
-	// reset ActiveFile
-	path := tx.db.getDataPath(tx.db.MaxFileID)
-	tx.db.ActiveFile, err = NewDataFile(path, tx.db.opt.SegmentSize, tx.db.opt.RWMode)
+	// reset ActiveFile; the database only moves on to the next segment once it
+	// could be opened, so that a failed rotation does not leave a nil ActiveFile
+	// (and a skipped file id) behind for the next Commit to trip over
+	path := tx.db.getDataPath(fID + 1)
+	activeFile, err := NewDataFile(path, tx.db.opt.SegmentSize, tx.db.opt.RWMode)
 	if err != nil {
 		return err
 	}
 
+	tx.db.MaxFileID = fID + 1
+	tx.db.ActiveFile = activeFile
 	tx.db.ActiveFile.fileID = tx.db.MaxFileID
 	return nil
 }
